@@ -1830,7 +1830,11 @@ class slate_BradleyTerry(BallotGenerator):
             ):
                 acceptance_prob = odds
 
-            # if swap increases number of voters bloc above opposing or swaps two of same bloc
+            # if swap increases number of voters bloc above opposing, accept with the inverse odds
+            elif current_ranking[j1] != current_ranking[j2] and odds > 0:
+                acceptance_prob = 1 / odds
+
+            # swaps of two of the same bloc (or any swap upwards at cohesion 1) are always accepted
             else:
                 acceptance_prob = 1
 
